@@ -14,12 +14,18 @@ P = {
  "C07": dict(tech="runtime monitor: differential against a reference descent written over Index/Convert*/Expression, all short paths per random tree",
              text="Exploration: 2.5k / 200k random trees (nil slots, Conditions, aliases, per-stack index options); per tree all paths of length 0..3 over [-1,5] and 600 sampled deeper ones (about 1.9M paths in quick); "
                   "value identity and success flag compared with stepwise descent.", ref="2 C07"),
+ "C08": dict(tech="runtime monitor: exhaustive hostile-index and awkward-value sweeps over reflection-enumerated methods, list-model verdicts, recursive VerifDump diff and a 17-step observer battery",
+             text="Exploration, exhaustive over the stated finite catalogue: every int-taking Stack method x {MinInt..MaxInt boundary set} x lengths 0..4 x index options x capacity (15k calls), every any-taking Stack/Condition method x 55 awkward values, each value in four element roles; "
+                  "no panic, failure+unchanged snapshot for non-addressing indices, configuration slot intact and all observers still usable afterwards.", ref="2 C08"),
  "C13": dict(tech="runtime monitor: list model with the no-nesting bit over random push-batch/option-switch histories; Condition expression state machine",
              text="Exploration: 20k / 1M random histories of mixed push batches (native, alias, pointer-to-alias Stacks, Conditions, primitives, nil) interleaved with option switches, on all kinds and on Conditions; "
                   "content identity, CanNest and IsNesting checked after every step.", ref="2 C13"),
  "C15": dict(tech="runtime monitor: exhaustive product of source/destination shapes with recursive VerifDump before/after diff",
              text="Exploration, exhaustive over the stated finite product (29k cases: lengths 0..6 x 0..6, capacity none/1..8, LIFO/FIFO, nil elements, 11 destination forms); "
                   "success implies dst0++src, capacity shortage and inert destinations imply false and an unchanged destination, the source never changes.", ref="2 C15"),
+ "C17": dict(tech="runtime monitor: reflection-enumerated methods and go/parser-cross-checked package functions invoked on zero/freed receivers, inertness oracle",
+             text="Exploration: every exported method of Stack/Condition/Auxiliary x argument variants x {zero, freed, Init-only} receivers (1.3k calls), every exported package function x awkward arguments, Free/Reset lifecycle cases and random call sequences on dead receivers; "
+                  "a function missing from the table or a method unreachable by reflection makes the run inconclusive.", ref="2 C17"),
  "C18": dict(tech="runtime monitor: bit-set/settings model compared with the raw option bits (VerifDump), getters and reference rendering after every call; exhaustive short sequences",
              text="Exploration: all {set,clear,toggle} x option sequences of length <=3 / <=4 from several start states (Stacks: 8 options, Conditions: 4 setters) plus 10k / 500k random 30-call sequences mixing every string-valued setting, log levels, auxiliary map and the FIFO latch.", ref="2 C18"),
  "C19": dict(tech="runtime monitor: exhaustive nil/non-nil patterns against the filter-non-nil oracle, result-shape classifier with per-pattern pinned known outcomes",
